@@ -101,7 +101,7 @@ def case_strategy(draw):
         irs = [irs[0]] * 3
     truth = draw(st.sampled_from(KINDS))
     related = None
-    if not same and draw(st.integers(0, 3)) == 0:
+    if not same and draw(st.integers(0, 2)) == 0:
         # the usual life of a synced trio: the truth gained or lost its LAST parameter(s) since the previous sync, so
         # every other target holds a strict prefix / an extension of the truth's parameters
         import copy
@@ -125,7 +125,7 @@ def case_strategy(draw):
                 o["params"] += [a for a, _k in add]
                 o["kinds"] += [k_ for _a, k_ in add]
             irs[i] = o
-    undocumented = draw(st.integers(0, 3)) == 0
+    undocumented = draw(st.integers(0, 3)) == 0 or (related is not None and draw(st.booleans()))
     if undocumented:
         # nobody wrote descriptions: no header, no per-parameter text (the emitted class then has no docstring)
         import copy
